@@ -16,10 +16,14 @@ pub mod c08;
 pub mod c09;
 pub mod c10;
 pub mod c11;
+pub mod c12;
+pub mod c13;
+pub mod c14;
 pub mod c15;
 pub mod c16;
 pub mod c17;
 pub mod c19;
+pub mod c20;
 
 pub use lab::{Lab, Pol};
 pub use util::{IdSet, Params};
@@ -70,10 +74,14 @@ pub fn run_prop<C: RandomizedCiphersuite, L: Lab<C>>(prop: &str, lab: &mut L, p:
         "C09" => c09::run::<C, L>(lab, p),
         "C10" => c10::run::<C, L>(lab, p),
         "C11" => c11::run::<C, L>(lab, p),
+        "C12" => c12::run::<C, L>(lab, p),
+        "C13" => c13::run::<C, L>(lab, p),
+        "C14" => c14::run::<C, L>(lab, p),
         "C15" => c15::run::<C, L>(lab, p),
         "C16" => c16::run::<C, L>(lab, p),
         "C17" => c17::run::<C, L>(lab, p),
         "C19" => c19::run::<C, L>(lab, p),
+        "C20" => c20::run::<C, L>(lab, p),
         _ => panic!("unknown property {prop}"),
     }
 }
@@ -90,10 +98,14 @@ pub fn cases(prop: &str, thorough: bool, seed: u64) -> Vec<Params> {
         "C09" => c09::cases(thorough, seed),
         "C10" => c10::cases(thorough, seed),
         "C11" => c11::cases(thorough, seed),
+        "C12" => c12::cases(thorough, seed),
+        "C13" => c13::cases(thorough, seed),
+        "C14" => c14::cases(thorough, seed),
         "C15" => c15::cases(thorough, seed),
         "C16" => c16::cases(thorough, seed),
         "C17" => c17::cases(thorough, seed),
         "C19" => c19::cases(thorough, seed),
+        "C20" => c20::cases(thorough, seed),
         _ => panic!("unknown property {prop}"),
     }
 }
